@@ -95,12 +95,12 @@ class AddressType(StringType, prim='address'):
         return f'{self.value[:6]}…{self.value[-3:]}'
 
     def __lt__(self, other: 'AddressType') -> bool:  # type: ignore
-        if is_pkh(self.value) and is_kt(other.value):
-            return True
-        elif is_kt(self.value) and is_pkh(other.value):
-            return False
-        else:
-            return self.value < other.value
+        # Tezos orders addresses by their binary form (implicit < originated < rollup, then bytes), then by entrypoint
+        return self._sort_key() < other._sort_key()
+
+    def _sort_key(self):
+        address, _, entrypoint = self.value.partition('%')
+        return forge_address(address), entrypoint or 'default'
 
     @classmethod
     def dummy(cls, context: AbstractContext) -> 'AddressType':
